@@ -105,7 +105,7 @@ Lemma discover_rwvm : forall u pres ds rsel vsel fi fd,
   (use_rwvm u = true -> forall lvls, levels ds fi = Ok lvls ->
      (fd_rwvm fd <> None <-> first_some lv_rwvm lvls <> None)).
 Proof.
-  intros u pres ds rsel vsel fi fd. unfold discover, bind.
+  intros u pres ds rsel vsel fi fd. unfold discover, discover_at, bind.
   destruct (levels ds fi) as [lvls|] eqn:L; [|discriminate].
   destruct (use_rwvm u) eqn:U.
   - destruct (first_some lv_rwvm lvls) as [rs|] eqn:FS.
@@ -144,7 +144,7 @@ Lemma discover_modality : forall u pres ds rsel vsel fi fd,
      fd_modlut fd = d_modlut ds /\
      fd_rescale fd = match d_modlut ds with Some _ => None | None => first_some level_rescale lvls end).
 Proof.
-  intros u pres ds rsel vsel fi fd. unfold discover, bind.
+  intros u pres ds rsel vsel fi fd. unfold discover, discover_at, bind.
   destruct (levels ds fi) as [lvls|] eqn:L; [|discriminate].
   destruct (if use_rwvm u then _ else _) as [rw|] eqn:RW; [|discriminate].
   destruct rw as [rk|]; cbn [negb andb].
@@ -196,7 +196,7 @@ Lemma discover_voi : forall u pres ds rsel vsel fi fd,
   (pres = false -> fd_invert fd = false) /\
   fd_invert fd = pres && ds_invert ds.
 Proof.
-  intros u pres ds rsel vsel fi fd. unfold discover, bind.
+  intros u pres ds rsel vsel fi fd. unfold discover, discover_at, bind.
   destruct (levels ds fi) as [lvls|] eqn:L; [|discriminate].
   destruct (if use_rwvm u then _ else _) as [rw|] eqn:RW; [|discriminate].
   destruct (req_rwvm u && _); [discriminate|].
@@ -238,7 +238,8 @@ Definition lut_ok (first : Z) (data : list Z) (bits : Z) : Prop :=
   Forall (fun v => 0 <= v < 2 ^ bits) data.
 
 (* LUT(first, data).lut_data = data, in memory and after a file round trip
-   (odd 8-bit tables padded); only a one-entry 8-bit table cannot be written to a file at all *)
+   (odd 8-bit tables are padded in both); the exception is a one-entry 8-bit table read back
+   from a file, see lut_identity_one_entry_8bit_file_refuted *)
 Lemma lut_identity : forall first data bits expl pad,
   lut_ok first data bits -> (pad = true -> bits = 8 -> zlen data <> 1) ->
   exists l, mk_lut first data bits expl pad = Ok l /\
@@ -251,37 +252,48 @@ Proof.
   replace (first <? 0) with false by lia. replace (65536 <=? first) with false by lia.
   replace (zlen data =? 0) with false by lia. replace (65536 <? zlen data) with false by lia.
   replace ((bits =? 8) || (bits =? 16)) with true by lia. cbn [negb].
-  assert (P1 : pad && (zlen data =? 1) && (bits =? 8) = false).
-  { destruct pad; [|reflexivity]. specialize (Hpad eq_refl). cbn [andb].
-    destruct (bits =? 8) eqn:B8; [|apply andb_false_r]. rewrite andb_true_r.
-    assert (bits = 8) by lia. specialize (Hpad H). lia. }
-  rewrite P1.
   eexists. split; [reflexivity|].
-  unfold lut_data, lut_entries. cbn [ld_bits ld_n ld_bytes ld_first].
+  unfold lut_data, lut_entries. cbn [ld_bits ld_n ld_bytes ld_first ld_scalar].
   replace ((bits =? 8) || (bits =? 16)) with true by lia. cbn [negb].
   set (n := zlen data) in *.
   assert (Hent : (if (if n =? 65536 then 0 else n) =? 0 then 65536 else (if n =? 65536 then 0 else n)) = n).
   { destruct (n =? 65536) eqn:E; cbn; [lia|]. replace (n =? 0) with false by lia. reflexivity. }
   rewrite Hent.
+  assert (P1 : (bits =? 8) && (n mod 2 =? 1) && (pad && (n =? 1)) = false).
+  { destruct pad; [|cbn [andb]; apply andb_false_r]. specialize (Hpad eq_refl). cbn [andb].
+    destruct (bits =? 8) eqn:B8; [|reflexivity]. cbn [andb].
+    assert (bits = 8) by lia. specialize (Hpad H). replace (n =? 1) with false by lia.
+    apply andb_false_r. }
+  rewrite P1.
   split; [| repeat split; reflexivity].
   subst n.
   destruct Hb as [-> | ->].
   - (* 8 bit *)
     cbn [Z.eqb Pos.eqb andb].
-    destruct (pad && (zlen data mod 2 =? 1)) eqn:PD.
-    + apply andb_true_iff in PD. destruct PD as [_ Odd].
-      rewrite Odd. rewrite zlen_app. change (zlen [0]) with 1.
-      rewrite Z.eqb_refl. cbn [andb].
+    destruct (zlen data mod 2 =? 1) eqn:Odd.
+    + rewrite zlen_app. change (zlen [0]) with 1.
+      rewrite Z.eqb_refl.
       rewrite removelast_last. rewrite Z.eqb_refl. reflexivity.
-    + replace (zlen data =? zlen data + 1) with false by lia. rewrite andb_false_r.
-      rewrite Z.eqb_refl. reflexivity.
+    + rewrite Z.eqb_refl. reflexivity.
   - (* 16 bit *)
     cbn [Z.eqb Pos.eqb andb].
     assert (Ev : (zlen (enc16 data) mod 2 =? 1) = false)
       by (rewrite zlen_enc16, Z.mul_comm, Z_mod_mult; reflexivity).
-    rewrite Ev, andb_false_r.
+    rewrite Ev.
     rewrite dec16_enc16 by (eapply Forall_impl; [|exact Hv]; cbn; intros; lia).
     rewrite Z.eqb_refl. reflexivity.
+Qed.
+
+(* the excluded case is a genuine failure of the code as it is: a one-entry 8-bit table is
+   written as two bytes, comes back from the file as a bare int, and lut_data raises TypeError *)
+Lemma lut_identity_one_entry_8bit_file_refuted :
+  exists first data bits expl l,
+    lut_ok first data bits /\ mk_lut first data bits expl true = Ok l /\
+    lut_data l = Err "TypeError".
+Proof.
+  exists 5, [7], 8, None. eexists. split; [|split; vm_compute; reflexivity].
+  unfold lut_ok, zlen. cbn [length Z.of_nat Pos.of_succ_nat]. repeat split; try lia; auto.
+  repeat constructor; lia.
 Qed.
 
 (* table lookup with clipping *)
